@@ -407,7 +407,7 @@ def code_tokens(tt: TokTables, srcs, elems=None):
     return com, sorted(oth)
 
 
-def record(tt: TokTables, plan, pre_src: str, post_src: str, elems=None) -> dict:
+def record(tt: TokTables, plan, pre_src: str, post_src: str, new_elems=None) -> dict:
     """Token facts of one executed edit (see module docstring)."""
     bad = {'ok': False}
     pre = Stream(pre_src, tt)
@@ -430,7 +430,7 @@ def record(tt: TokTables, plan, pre_src: str, post_src: str, elems=None) -> dict
     rank = field_rank(type(host).__name__, ('args.' + field) if isinstance(node, ast.arguments) else
                       {'_body': 'body', '_args': 'args', '_bases': 'bases'}.get(
                           field, ('left' if isinstance(node, ast.Compare) else 'keys') if field == '_all' else field))
-    newc, newk = code_tokens(tt, plan.srcs, elems)
+    newc, newk = code_tokens(tt, plan.srcs, new_elems)
     uo, uo_ok = [0] * len(post.toks), False
     try:
         ptree = ast.parse(post_src)
@@ -461,6 +461,11 @@ EMPTY = {'ok': False, 'pre': 0, 'post': 0, 'own': [], 'uown': [], 'uoOk': False,
          'exact': False, 'stmt': False}
 
 
+TRIVIA_POOL = [True, False, 'all', 'block', 'none', 'all-', 'block+1', '+2', '-1', (), ('all',), ('block',), ('none',),
+               ('line',), (False, False), ('all', 'all'), ('block', 'block'), ('none', 'line+1'), ('all-1', 'all+'),
+               ('none', 'block'), ('all', False), (True, 'all-1')]
+
+
 def make_hooks(tt: TokTables):
     """hooks for harness.histories.run_history: attach `tk` to every event (complete facts only for successful edits)."""
 
@@ -473,4 +478,12 @@ def make_hooks(tt: TokTables):
                 pass
         ev['tk'] = tk
 
-    return {'post': post}
+    def pre(root, plan, o, rng):
+        # widen the driver's option pool: every documented form of the `trivia` option, line numbers included
+        if not plan.corrupt and rng.random() < 0.3:
+            nl = len(root.lines)
+            pool = TRIVIA_POOL + [rng.randrange(nl), (rng.randrange(nl), rng.randrange(nl)), ('block', rng.randrange(nl)),
+                                  (rng.randrange(nl), 'line'), (rng.randrange(nl), 'all')]
+            plan.opts = dict(plan.opts, trivia=rng.choice(pool))
+
+    return {'pre': pre, 'post': post}
